@@ -14,6 +14,7 @@ pub mod c09;
 pub mod common;
 pub mod xfer;
 pub mod c10;
+pub mod c10t;
 pub mod c11;
 pub mod c13;
 pub mod c15;
@@ -23,7 +24,7 @@ pub mod c19_backoff;
 pub mod c19b;
 pub mod c20;
 
-/// `check` hands a replay file to EVERY part of a property. The two psim parts of C08 (and of C02) answer only for their
+/// `check` hands a replay file to EVERY part of a property. The psim parts of C08, C02 and C10 answer only for their
 /// own cases (the other one reports nothing instead of "case not in this tier's case list").
 fn replay_of_other_part(args: &Args) -> bool {
     let case = args.replay_json().and_then(|j| j.get("case").and_then(|c| c.as_str().map(str::to_string)));
@@ -39,6 +40,7 @@ pub fn dispatch(args: &Args) -> Report {
         "C04" => c04::run(args),
         "C05" => c05::run(args),
         "C06" => c06::run(args),
+        "C10" | "C10R" | "C10T" if replay_of_other_part(args) => Report::new("C10", &args.tier, "psim", "fault_enumeration"),
         "C03R" | "C10R" | "C15R" => c06::run_reuse(args),
         "C07" => c07::run(args),
         "C08" | "C08T" if replay_of_other_part(args) => Report::new("C08", &args.tier, "psim", "fault_enumeration"),
@@ -46,6 +48,7 @@ pub fn dispatch(args: &Args) -> Report {
         "C08T" => c08t::run(args),
         "C09" => c09::run(args),
         "C10" => c10::run(args),
+        "C10T" => c10t::run(args),
         "C11" => c11::run(args),
         "C13" => c13::run(args),
         "C15" => c15::run(args),
